@@ -407,9 +407,9 @@ def field_mngts(draw, P, cn):
 def groundwaters(draw, P, start, ndays):
     kind = draw(st.sampled_from(list(P.get("gw_kinds") or ["const", "const", "Constant", "Variable"])))
     if P["gw_shallow"]:
-        depth = st.one_of(f2(0.1, 3.0), f2(0.1, 3.0), f2(3.0, 8.0))
+        depth = st.one_of(f2(0.1, 3.0), f2(0.1, 3.0), f2(3.0, 8.0), f2(0.01, 0.12))
     else:
-        depth = st.one_of(f2(0.1, 3.0), f2(1.0, 6.0), f2(6.0, 60.0))
+        depth = st.one_of(f2(0.1, 3.0), f2(1.0, 6.0), f2(6.0, 60.0), f2(0.01, 0.3))
     if kind == "const":
         return dict(method="Constant", dates=[start.strftime("%Y/%m/%d")], values=[draw(depth)])
     n = draw(st.integers(2, 6))
@@ -432,7 +432,9 @@ def co2s(draw, y0, y1, kinds=None):
         return {"constant_default": True}
     base = float(draw(st.integers(280, 900)))
     slope = draw(f1(-2.0, 25.0))
-    return {"table": [[y, max(250.0, base + slope * (y - y0))] for y in range(y0 - 1, y1 + 2)]}
+    step = draw(st.sampled_from([1, 1, 5, 10]))       # yearly, 5-yearly or decadal entries (interpolated in between)
+    first = (y0 - 1) - ((y0 - 1) % step) - (step if step > 1 else 0)
+    return {"table": [[y, max(250.0, base + slope * (y - y0))] for y in range(first, y1 + 2 * step + 1, step)]}
 
 
 # ------------------------------------------------------------------------------------------------
@@ -484,9 +486,12 @@ def configs(draw, P=None):
 
     crop = dict(name=name, planting="%02d/%02d" % (pm, pd_), harvest=None, overrides=ov)
     if flag(draw, P["p_harvest"]):
-        h = dt.date(2001, pm, pd_) + dt.timedelta(days=draw(st.integers(max(20, slen // 3), min(330, slen + 40))))
-        if not (h.month == 2 and h.day == 29):
-            crop["harvest"] = mmdd(h)
+        if slen >= 300 and flag(draw, 0.3):
+            crop["harvest"] = crop["planting"]      # back-to-back seasons: latest harvest on the next planting day
+        else:
+            h = dt.date(2001, pm, pd_) + dt.timedelta(days=draw(st.integers(max(20, slen // 3), min(364, slen + 40))))
+            if not (h.month == 2 and h.day == 29):
+                crop["harvest"] = mmdd(h)
 
     zmax = ov.get("Zmax", cp["Zmax"])
     s = draw(soils(P, zmax).filter(texture_ok))
